@@ -5,6 +5,14 @@ import json, subprocess
 BASELINE = json.load(open('/root/.vp/BASELINE.json'))['cmd']
 
 CHECKS = {
+ "C09": dict(level="exploration", design="DESIGN.md §4 C09",
+   text="Through read-only hooks the machine state is read after every statement of (a) every statement form in every statement context and the generator/body/placement loops (sp, frame depth, closure depth, live contexts, main ip must be back at rest) and (b) every statement form as body of every loop driver run with 5 and with 300 (600) iterations, where peak operand-stack use of main and generator contexts, peak live contexts and stack length must not grow with the iteration count.",
+   note="Observation is through the verif hooks (memory.VerifState, vm.VerifLiveContexts, step callback); sessions that crash or exhaust fuel are left to C05.",
+   technique="bounded exhaustive enumeration of statement forms x contexts x loop drivers with state invariants read through hooks and a differential iteration-count oracle"),
+ "C12": dict(level="exploration", design="DESIGN.md §4 C12",
+   text="Differential check on the real pipeline only: for every core expression of up to 3 (4) nodes and every value kind, two programs that differ only in a placement selecting another code-generation strategy (used/discarded, function tail/non-tail/top level, loop body, operand depth 1..3, call argument, array element, assignment, increment forms, common operand shortcut, negated conditions, and every non-boolean condition in every statement context) must produce the same output, error class and value.",
+   note="No reference model is involved; pairs are constructed so that the language rules make both members equivalent (tolerance T-nil-bool for nil in boolean positions).",
+   technique="bounded exhaustive enumeration of expression x placement pairs with a differential oracle between two runs of the real code"),
  "C02": dict(level="exploration", design="DESIGN.md §4 C02",
    text="Every loop of the product iterator expression (closure of 11 base generators under map/filter/take/chain) x body step from the collision alphabet (one per resource shared between generator and body contexts) x placement (top level, call depth 1..5, recursion, inside another loop, inside another generator) x preceding history, plus all 2- and 3-iterator zips, is executed on the real VM and on the coroutine reference model; bound values, interleaved output, loop results and session values must agree.",
    note="Trusts the reference model's coroutine reading of for/yield (calibrated on all TestCalc iterator rows and the Readme examples); generator-side reads the description leaves open (D-fork) are skipped.",
